@@ -104,21 +104,35 @@ impl<T> OffsetArc<T> {
     where
         T: Clone,
     {
+        // `Arc::make_mut()` may replace the Arc, and it may also unwind after having done so
+        // (when the destructor of the old value panics). Store the possibly-mutated arc back
+        // whenever this method exits. We do this with a drop guard to handle the panicking case
+        struct WriteBack<'a, T: 'a> {
+            arc: ManuallyDrop<Arc<T>>,
+            this: &'a mut OffsetArc<T>,
+        }
+
+        impl<'a, T> Drop for WriteBack<'a, T> {
+            fn drop(&mut self) {
+                // Convert the arc to a OffsetArc again and store it back inside.
+                // This does not modify the refcount or call drop on `this`
+                unsafe { ptr::write(self.this, Arc::into_raw_offset(ptr::read(&*self.arc))) }
+            }
+        }
+
         unsafe {
             // extract the OffsetArc as an owned variable. This does not modify
             // the refcount and we should be careful to not drop `this`
             let this = ptr::read(self);
             // treat it as a real Arc, but wrapped in a ManuallyDrop
             // in case `Arc::make_mut()` panics in the clone impl
-            let mut arc = ManuallyDrop::new(Arc::from_raw_offset(this));
+            let arc = ManuallyDrop::new(Arc::from_raw_offset(this));
+            let mut guard = WriteBack { arc, this: self };
             // obtain the mutable reference. Cast away the lifetime since
             // we have the right lifetime bounds in the parameters.
-            // This may mutate `arc`.
-            let ret = Arc::make_mut(&mut *arc) as *mut _;
-            // Store the possibly-mutated arc back inside, after converting
-            // it to a OffsetArc again. Release the ManuallyDrop.
-            // This also does not modify the refcount or call drop on self
-            ptr::write(self, Arc::into_raw_offset(ManuallyDrop::into_inner(arc)));
+            // This may mutate `guard.arc`.
+            let ret = Arc::make_mut(&mut *guard.arc) as *mut _;
+            drop(guard);
             &mut *ret
         }
     }
